@@ -226,13 +226,37 @@ def assess(ar: Arena) -> T.Optional[T.Dict[str, T.Any]]:
     if case.kind == 'setup':
         first = assess_with(ar, case.followup)
         if first is None:
-            return None
+            return later_wipe(ar)
         second = assess_with(ar, ['setup', '--reconfigure', '@B', '@S'])
         if second is None:
-            return {'symptom': 'note-plain-rerun-insufficient', 'first': first['symptom']}
+            return later_wipe(ar) or {'symptom': 'note-plain-rerun-insufficient', 'first': first['symptom']}
         second['after_plain_rerun'] = first['symptom']
         return second
-    return assess_with(ar, case.followup)
+    sym = assess_with(ar, case.followup)
+    if sym is None and os.environ.get('VERIF_TIER') == 'thorough':
+        return later_wipe(ar)
+    return sym
+
+
+def later_wipe(ar: Arena) -> T.Optional[T.Dict[str, T.Any]]:
+    """The recovered directory is used on: a later `meson setup --wipe` re-derives the configuration from what was recorded.
+    "Afterwards every option has either its value from before the interrupted command or the value that command was
+    setting - never anything else" must survive that too (a recovery that only looks right until the next wipe lost data)."""
+    case = ar.case
+    w = runner.meson(subst(['setup', '--wipe', '@B', '@S'], ar.b, ar.src), cwd=ar.src)
+    if w.timed_out:
+        return {'symptom': 'inconclusive-timeout'}
+    if w.rc != 0 or w.traceback:
+        return {'symptom': 'later-wipe-failed', 'rc': w.rc, 'tail': (w.out + w.err)[-600:]}
+    vals = optprobe.read_options(ar.b, KEYS)
+    if '__load_error__' in vals:
+        return {'symptom': 'coredata-unreadable-after-later-wipe', 'detail': vals['__load_error__']}
+    for k in KEYS:
+        lab = LABEL[k]
+        allowed = {json.dumps(case.target[lab])} | ({json.dumps(case.before[lab])} if case.before is not None else set())
+        if json.dumps(vals.get(lab)) not in allowed:
+            return {'symptom': 'value-lost-by-later-wipe', 'option': lab, 'got': vals.get(lab), 'allowed': sorted(allowed)}
+    return None
 
 
 def assess_with(ar: Arena, followup: T.List[str]) -> T.Optional[T.Dict[str, T.Any]]:
